@@ -222,6 +222,63 @@ func init() {
 		}
 		return "ok " + hx(buf.String()) + " ok " + showRecord(w.Elem())
 	}
+	// cptr mask version dep arch text num: a struct whose optional fields are POINTERS (nil when the mask bit is 0).
+	// Marshalling it must not panic; a nil pointer is an absent field, a non-nil one is written as its value.
+	ops["cptr"] = func(a []string) string {
+		type pointers struct {
+			Package string
+			Version *version.Version
+			Depends *dependency.Dependency
+			Arch    *dependency.Arch `control:"Architecture"`
+			Comment *string          `control:"X-Comment"`
+			Count   *int
+			Section string
+		}
+		mask := arg(a, 0)
+		bit := func(i int) bool { return len(mask) > i && mask[i] == '1' }
+		p := pointers{Package: "foo", Section: "misc"}
+		if bit(0) {
+			v, err := version.Parse(arg(a, 1))
+			if err != nil {
+				return "bad-arg"
+			}
+			p.Version = &v
+		}
+		if bit(1) {
+			d, err := dependency.Parse(arg(a, 2))
+			if err != nil {
+				return "bad-arg"
+			}
+			p.Depends = d
+		}
+		if bit(2) {
+			x, err := dependency.ParseArch(arg(a, 3))
+			if err != nil {
+				return "bad-arg"
+			}
+			p.Arch = x
+		}
+		if bit(3) {
+			t := arg(a, 4)
+			p.Comment = &t
+		}
+		if bit(4) {
+			n, _ := strconv.Atoi(arg(a, 5))
+			p.Count = &n
+		}
+		var buf bytes.Buffer
+		if err := control.Marshal(&buf, p); err != nil {
+			return "err"
+		}
+		var buf2 bytes.Buffer
+		if err := control.Marshal(&buf2, &p); err != nil {
+			return "err"
+		}
+		if buf.String() != buf2.String() {
+			return "value-and-pointer-differ"
+		}
+		return "ok " + hx(buf.String())
+	}
 	// what the struct holds right after buildStruct: lets the driver check its own argument conventions
 	ops["cshow"] = func(a []string) string {
 		v, ok := buildStruct(a)
